@@ -61,6 +61,9 @@ type fakeDisc struct {
 	healthy []*domain.Endpoint
 	fail    bool
 	calls   int
+	// overlap mode: a refresh announces itself and waits until it is let go
+	entered chan struct{}
+	gate    chan struct{}
 }
 
 func (f *fakeDisc) GetEndpoints(context.Context) ([]*domain.Endpoint, error) { return f.healthy, nil }
@@ -68,6 +71,14 @@ func (f *fakeDisc) GetHealthyEndpoints(context.Context) ([]*domain.Endpoint, err
 	return f.healthy, nil
 }
 func (f *fakeDisc) RefreshEndpoints(context.Context) error {
+	if f.gate != nil {
+		f.entered <- struct{}{}
+		<-f.gate
+		if f.fail {
+			return fmt.Errorf("refresh failed")
+		}
+		return nil
+	}
 	f.calls++
 	if f.fail {
 		return fmt.Errorf("refresh failed")
@@ -131,6 +142,9 @@ func level1() {
 				}
 				for H := 0; H < 1<<uint(n); H++ {
 					for L := 0; L < 1<<uint(n); L++ {
+						if s.typ == "discovery" && s.refresh != "off" && n == 2 {
+							l1overlap(kind, s, all, H, L)
+						}
 						for hist := 0; hist < 4; hist++ {
 							for _, native := range []string{"m1", "Mx-7B"} {
 								l1cell(kind, s, all, H, L, hist, native)
@@ -249,6 +263,86 @@ func l1cell(kind string, s strat, all []*domain.Endpoint, H, L, hist int, M stri
 			}
 		} else if wantSet == "" {
 			res.Violate("rejected-without-decision", wit, cell, rp)
+		}
+	}
+}
+
+// l1overlap: two requests for the same model arrive while a refresh of the first is still going on (the discovery
+// strategy refreshes on a miss). The first call is held inside its refresh, the second is started and runs until it
+// is inside its own refresh or has returned, then both are let go. Each answer is judged by the table on its own.
+func l1overlap(kind string, s strat, all []*domain.Endpoint, H, L int) {
+	healthy := subset(H, all)
+	fd := &fakeDisc{healthy: healthy, fail: s.refresh == "fail", entered: make(chan struct{}, 4), gate: make(chan struct{})}
+	reg, err := registry.NewModelRegistry(registry.RegistryConfig{Type: "memory", EnableUnifier: kind == "unified",
+		UnificationConf: &config.UnificationConfig{Enabled: true, CacheTTL: time.Minute}, RoutingStrategy: s.cfg(), Discovery: fd}, lg)
+	if err != nil {
+		res.Break("registry: %v", err)
+		return
+	}
+	const M = "m1"
+	for i, e := range all {
+		l := []*domain.ModelInfo{mi("other")}
+		if L&(1<<uint(i)) != 0 {
+			l = []*domain.ModelInfo{mi(M), mi("other")}
+		}
+		reg.RegisterModels(ctx, e.URLString, l)
+	}
+	if kind == "unified" {
+		time.Sleep(3 * time.Millisecond)
+	}
+	for _, name := range []string{M, "zz-unknown"} {
+		type ans struct {
+			eps []*domain.Endpoint
+			dec *domain.ModelRoutingDecision
+		}
+		var out [2]ans
+		done := [2]chan struct{}{make(chan struct{}), make(chan struct{})}
+		fd.gate = make(chan struct{})
+		for k := 0; k < 2; k++ {
+			k := k
+			go func() {
+				defer close(done[k])
+				out[k].eps, out[k].dec, _ = reg.GetRoutableEndpointsForModel(ctx, name, healthy)
+			}()
+			select { // inside its refresh, or finished without one
+			case <-fd.entered:
+			case <-done[k]:
+			case <-time.After(10 * time.Second):
+				res.Break("L1 overlap: call %d neither entered a refresh nor returned", k)
+				return
+			}
+		}
+		close(fd.gate)
+		<-done[0]
+		<-done[1]
+		res.Add("evaluations", 2)
+		res.Add("transitions", 2)
+		res.Add("traces_validated_against_impl", 1)
+		effL := L
+		if name == "zz-unknown" {
+			effL = 0
+		}
+		wantSet, wantStatus, _ := table(s, H, effL, all)
+		for k := 0; k < 2; k++ {
+			cell := fmt.Sprintf("L1 overlap registry=%s strategy=%s endpoints=%s healthy={%s} lists-%s={%s} model=%q: call %d of two overlapping calls", kind, s, names(all), names(healthy), M, names(subset(L, all)), name, k+1)
+			rp := map[string]any{"engine": "ops", "cell": cell}
+			wit := map[string]any{"level": "L1-overlap", "strategy": s.typ, "fallback": s.fallback, "refresh": s.refresh}
+			got := names(out[k].eps)
+			res.SetAdd("states", fmt.Sprintf("overlap|%s|%s|%d|%d|%s|%d|%s", kind, s, H, L, name, k, got))
+			if H == 0 {
+				continue
+			}
+			if got != wantSet {
+				cl := "decision-table-endpoints"
+				if s.restrictive() {
+					cl = "routed-where-not-served"
+				}
+				res.Violate(cl, wit, cell+fmt.Sprintf("\nrouted to {%s}, table says {%s}", got, wantSet), rp)
+				continue
+			}
+			if wantSet == "" && out[k].dec != nil && out[k].dec.StatusCode != wantStatus {
+				res.Violate("decision-status", map[string]any{"level": "L1-overlap", "strategy": s.typ, "fallback": s.fallback, "refresh": s.refresh, "want": wantStatus, "got": out[k].dec.StatusCode}, cell, rp)
+			}
 		}
 	}
 }
